@@ -15,6 +15,8 @@
 //!   r = { PROBE(SEL) }                   SEL = VAL or NUMBER(VAL, opts)
 //! into a bundle for `<locale>` (isolation off, builtins added) and prints
 //!   p=<hex text>:<#errors>;q=…|~;s=…;r=<what PROBE received: full FluentNumber + PluralOperands::from(&n)>
+//!   ;ds=same|DIFF… (the select together with the other-precision select of the same value in one pattern)
+//!   ;tp=same|DIFF…|na (the literal as a named argument of a parameterized term: printed and selected on)
 //!   ;cs=same|DIFF-after-<kind>:<s on a concurrent bundle that resolved a select of that kind first>
 use fluent_bundle::types::{
     FluentNumber, FluentNumberCurrencyDisplayStyle, FluentNumberStyle, FluentNumberType,
@@ -200,6 +202,7 @@ fn run(payload: &str) -> String {
         ftl.push_str(&format!("q = {{ {} }}\n", sel_expr));
     }
     ftl.push_str(&format!("s = {{ {} ->\n", sel_expr));
+    let mut variants = String::new();
     for (idx, k) in keys.split(',').enumerate() {
         let (def, k) = match k.strip_prefix('*') {
             Some(r) => ("*", r),
@@ -218,9 +221,26 @@ fn run(payload: &str) -> String {
         } else {
             return "bad-case".to_string();
         };
-        ftl.push_str(&format!("   {}[{}] {}\n", def, key, idx));
+        variants.push_str(&format!("   {}[{}] {}\n", def, key, idx));
     }
+    ftl.push_str(&variants);
     ftl.push_str(" }\n");
+    // the same value selected on in its OTHER form (with / without visible fraction digits), alone and together with
+    // the first select in ONE pattern: each select must choose what it chooses alone
+    let alt_expr = if *opts == "-" {
+        format!("NUMBER({}, minimumFractionDigits: 1)", val_expr)
+    } else {
+        val_expr.clone()
+    };
+    ftl.push_str(&format!("s2 = {{ {} ->\n{} }}\n", alt_expr, variants));
+    ftl.push_str(&format!("d = {{ {} ->\n{} }}|{{ {} ->\n{} }}\n", sel_expr, variants, alt_expr, variants));
+    ftl.push_str(&format!("d2 = {{ {} ->\n{} }}|{{ {} ->\n{} }}\n", alt_expr, variants, sel_expr, variants));
+    // a number LITERAL handed to a parameterized term as a named argument keeps its written precision
+    let term_probe = matches!(val, Val::Lit(_)) && *opts == "-";
+    if term_probe {
+        ftl.push_str(&format!("-tt = {{ $n }}|{{ $n ->\n{} }}\n", variants));
+        ftl.push_str(&format!("tp = {{ -tt(n: {}) }}\n", val_expr));
+    }
     ftl.push_str(&format!("r = {{ PROBE({}) }}\n", sel_expr));
 
     let ftl_copy = ftl.clone();
@@ -260,6 +280,28 @@ fn run(payload: &str) -> String {
     let p = fmt("p");
     let q = fmt("q");
     let s = fmt("s");
+    let text = |id: &str| -> String {
+        let Some(pat) = bundle.get_message(id).and_then(|m| m.value()) else {
+            return "~".to_string();
+        };
+        let mut errs = vec![];
+        bundle.format_pattern(pat, Some(&args), &mut errs).into_owned()
+    };
+    let (ts, ts2) = (text("s"), text("s2"));
+    let ds = if text("d") != format!("{}|{}", ts, ts2) {
+        format!("DIFF:d={}", hex_enc(text("d").as_bytes()))
+    } else if text("d2") != format!("{}|{}", ts2, ts) {
+        format!("DIFF:d2={}", hex_enc(text("d2").as_bytes()))
+    } else {
+        "same".to_string()
+    };
+    let tp = if !term_probe {
+        "na".to_string()
+    } else if text("tp") != format!("{}|{}", text("p"), ts) {
+        format!("DIFF:{}", hex_enc(text("tp").as_bytes()))
+    } else {
+        "same".to_string()
+    };
     // the same selection on CONCURRENT bundles whose formatter cache already holds the plural rules of one kind
     // (cardinal resp. ordinal) from an earlier select: the category must not depend on the flavour or the history
     let mut cs = String::from("same");
@@ -300,7 +342,7 @@ fn run(payload: &str) -> String {
     PROBED.with(|p| p.borrow_mut().clear());
     let _ = fmt("r");
     let r = PROBED.with(|p| p.borrow().clone());
-    format!("p={};q={};s={};r={};cs={}", p, q, s, r, cs)
+    format!("p={};q={};s={};r={};cs={};ds={};tp={}", p, q, s, r, cs, ds, tp)
 }
 
 fn main() {
